@@ -243,6 +243,10 @@ func (m *indexLikeMatcher) Match(val client.NormalValue) (bool, error) {
 	strVal, ok := val.String()
 	if !ok {
 		if strOptVal, ok := val.NillableString(); ok {
+			if !strOptVal.HasValue() {
+				// a null value matches no pattern, not even the empty one (as in the document filter)
+				return !m.isLike, nil
+			}
 			strVal = strOptVal.Value()
 		} else if jsonVal, ok := val.JSON(); ok {
 			strVal, ok = jsonVal.String()
